@@ -142,12 +142,13 @@ def run(ctx: Ctx) -> None:
             return False
         return all((u is None and v is None) or (u is not None and v is not None and torch.equal(u, v)) for u, v in zip(p1, p2))
 
-    mod_names = ["MLP", "Res", "SeqRoot"] if quick else list(builders)
+    mod_names = ["MLP", "Res", "SeqRoot", "Attn", "UnitLayers"] if quick else list(builders)
     model_reqs, model_obs = [], []
     try:
         for mname in mod_names:
             build, xshape = builders[mname]
-            for fname in ((["lossless", "e5m2rn"] if mname != "SeqRoot" else ["e5m2rn"]) if quick else list(formats)):
+            for fname in (({"SeqRoot": ["e5m2rn"], "Attn": ["lossless"], "UnitLayers": ["lossless"]}.get(mname, ["lossless", "e5m2rn"]))
+                          if quick else list(formats)):
                 results: Dict[Tuple, Any] = {}
                 for core in cores:
                     if fname != "lossless" and "simulate" not in core and not (fname == "e5m2rn"):
